@@ -17,6 +17,12 @@ demoflags=${SEED_DEMO_FLAGS:-}
 ( cd "$wt" && go test -vet=off -count=1 $demoflags -run "^($runre)\$" . > /tmp/seedeval_$id.with 2>&1 ); rc_with=$?
 rm -f "$wt/$name"
 ( cd "$wt" && go test -vet=off -count=1 . > /tmp/seedeval_$id.suite 2>&1 ); rc_suite=$?
+if [ $rc_suite -ne 0 ]; then
+  # TestIndexAllTypes is randomly flaky (~4%) on the unchanged tree too: retry once and name what failed
+  failed=$(grep -- '^--- FAIL' /tmp/seedeval_$id.suite | tr '\n' ' ')
+  ( cd "$wt" && go test -vet=off -count=1 . > /tmp/seedeval_$id.suite2 2>&1 ); rc_suite=$?
+  echo "$id: first suite run failed ($failed), retry rc=$rc_suite"
+fi
 echo "$id: demo without change rc=$rc_without (want 0); demo with change rc=$rc_with (want !=0); existing suite with change rc=$rc_suite (want 0)"
 git -C /repo worktree remove --force "$wt"; rm -rf "$wt"
 # checks against the changed tree (a scratch worktree given to the checks as VERIF_REPO,
